@@ -1,9 +1,11 @@
 package props
 
 import (
+	"context"
 	"fmt"
 	"sync"
 	"testing"
+	"time"
 
 	"github.com/onheap/eval"
 	"pgregory.net/rapid"
@@ -23,7 +25,10 @@ type C12Case struct {
 	Avail    []string    `json:"avail,omitempty"`
 	Masks    []int       `json:"masks"`
 	Evals    int         `json:"evals,omitempty"` // evaluations of the same compiled program (different bindings), all events retained until the end
-	Src      string      `json:"src"`
+	// CtxKind: what the caller puts into Ctx.Ctx (the engine hands it to operators and does nothing else
+	// with it): 0 nothing, 1 a live context, 2 a context that is already cancelled, 3 one whose deadline has passed
+	CtxKind int    `json:"ctx_kind,omitempty"`
+	Src     string `json:"src"`
 }
 
 func genC12(t *rapid.T) C12Case {
@@ -34,10 +39,16 @@ func genC12(t *rapid.T) C12Case {
 		BadVars:  rapid.IntRange(0, 3).Draw(t, "badvars") == 0,
 		Custom:   true, Stateful: true, Consts: true, Aliases: true,
 	}}
-	tree := wrapRoot(g.Program(rootTy(t)))
-	fixEmptyLists(tree)
-	u := UniverseFor(t, tree, false)
-	c := C12Case{U: *u, Tree: tree, Costs: genCosts(t, tree, finiteCosts),
+	var tree *m.Node
+	var u *Universe
+	if rapid.IntRange(0, 7).Draw(t, "biglists") == 0 {
+		tree, u = bigListProgram(t) // list operators on their large-list path
+	} else {
+		tree = wrapRoot(g.Program(rootTy(t)))
+		fixEmptyLists(tree)
+		u = UniverseFor(t, tree, false)
+	}
+	c := C12Case{U: *u, Tree: tree, Costs: genCosts(t, tree, finiteCosts), CtxKind: pickW(t, "ctxkind", 4, 1, 2, 1),
 		Events: rapid.IntRange(1, 2).Draw(t, "events"), Consumer: rapid.IntRange(0, 2).Draw(t, "consumer"),
 		Try: rapid.IntRange(0, 2).Draw(t, "try") == 0, Evals: rapid.IntRange(1, 3).Draw(t, "evals"), Src: m.Render(tree)}
 	if c.Try {
@@ -266,11 +277,24 @@ func checkC12(c C12Case, r *Rec) *Violation {
 			return Violf("C12: unreadable dump: %v\n%s", err, dP)
 		}
 		call := func(e *eval.Expr, f *Fetcher) Outcome {
+			ctx := f.Ctx()
+			switch c.CtxKind {
+			case 1:
+				ctx.Ctx = context.Background()
+			case 2:
+				cc, cancel := context.WithCancel(context.Background())
+				cancel()
+				ctx.Ctx = cc
+			case 3:
+				cc, cancel := context.WithDeadline(context.Background(), time.Unix(1, 0))
+				defer cancel()
+				ctx.Ctx = cc
+			}
 			return Safe(func() (eval.Value, error) {
 				if c.Try {
-					return e.TryEval(f.Ctx())
+					return e.TryEval(ctx)
 				}
-				return e.Eval(f.Ctx())
+				return e.Eval(ctx)
 			})
 		}
 		// every evaluation runs first; the events are looked at only when all of them have finished
@@ -401,6 +425,9 @@ func checkC12(c C12Case, r *Rec) *Violation {
 	if c.Try {
 		r.Class("tryeval")
 	}
+	if c.CtxKind >= 2 {
+		r.Class("caller-context-already-done")
+	}
 	if binaryApps >= 2*len(c.Masks) {
 		r.Class(">=2-binary-applications")
 	}
@@ -414,7 +441,7 @@ func checkC12(c C12Case, r *Rec) *Violation {
 
 var propC12 = Prop[C12Case]{
 	ID:    "C12",
-	Rule:  "typed random expression (custom, stateful and failing operators, failing variables) x optimization subsets (4 per case quick, 16 thorough) x binding x {Eval, TryEval with an availability split} x {ReportEvent, Debug} x consumer {synchronous reader copying on receipt; buffered channel drained after the call; reader that overwrites every Stack slice it receives}. Oracles: result, effect trace and Dump equal to the same case compiled without events; OP_EXEC events read after the evaluation equal, in order, the operator applications (name, arguments, result/error) that R/R_fast performs on the dumped tree (the final fold of a non-fast and/or with no absorbing operand is optional); TryEval: registered-operator events equal the operators' own call log, built-in events are self-consistent under the operator model, no DNE argument; events retained by the consumer equal the copies taken at receipt; LOOP positions strictly increase, and (Eval) the Stack snapshots follow the operand-stack discipline from one LOOP event to the next: first one empty, a leaf pushes its value, an operator replaces the arguments of its OP_EXEC event - the top of the snapshot - by its result, `if` pops the condition, the end-if marker changes nothing, a deciding boolean may drop operands below it. Non-trivial = at least two binary-operator applications and a consumer that is not the synchronous copying one; distinct by source + binding + consumer",
+	Rule:  "typed random expression (custom, stateful and failing operators, failing variables) x optimization subsets (4 per case quick, 16 thorough) x binding x {Eval, TryEval with an availability split} x {ReportEvent, Debug} x Ctx.Ctx {none, live, already cancelled, deadline passed} x consumer {synchronous reader copying on receipt; buffered channel drained after the call; reader that overwrites every Stack slice it receives}. Oracles: result, effect trace and Dump equal to the same case compiled without events; OP_EXEC events read after the evaluation equal, in order, the operator applications (name, arguments, result/error) that R/R_fast performs on the dumped tree (the final fold of a non-fast and/or with no absorbing operand is optional); TryEval: registered-operator events equal the operators' own call log, built-in events are self-consistent under the operator model, no DNE argument; events retained by the consumer equal the copies taken at receipt; LOOP positions strictly increase, and (Eval) the Stack snapshots follow the operand-stack discipline from one LOOP event to the next: first one empty, a leaf pushes its value, an operator replaces the arguments of its OP_EXEC event - the top of the snapshot - by its result, `if` pops the condition, the end-if marker changes nothing, a deciding boolean may drop operands below it. Non-trivial = at least two binary-operator applications and a consumer that is not the synchronous copying one; distinct by source + binding + consumer",
 	Gen:   genC12,
 	Check: checkC12,
 }
